@@ -562,6 +562,31 @@ impl ReactCache
     }
 }
 
+#[cfg(feature = "verif")]
+impl ReactCache
+{
+    /// Counts stored reactor handles (of `sys` only, if given).
+    pub(crate) fn verif_num_handles(&self, sys: Option<SystemCommand>) -> usize
+    {
+        let count = |handles: &Vec<ReactorHandle>| -> usize
+        {
+            handles.iter().filter(|h| sys.map(|s| h.sys_command() == s).unwrap_or(true)).count()
+        };
+        let mut total = 0;
+        for reactors in self.component_reactors.values()
+        {
+            total += count(&reactors.insertion_callbacks);
+            total += count(&reactors.mutation_callbacks);
+            total += count(&reactors.removal_callbacks);
+        }
+        for handles in self.despawn_reactors.values() { total += count(handles); }
+        for handles in self.any_entity_event_reactors.values() { total += count(handles); }
+        for handles in self.resource_reactors.values() { total += count(handles); }
+        for handles in self.broadcast_reactors.values() { total += count(handles); }
+        total
+    }
+}
+
 impl Default for ReactCache
 {
     fn default() -> Self
